@@ -808,11 +808,25 @@ func (n *AlertNode) newAlertState(tags models.Tags) *alertState {
 		n.et.tm.AlertService.AddInhibitor(inhibitor)
 	}
 	return &alertState{
-		history:    make([]alert.Level, n.a.History),
-		n:          n,
-		buffer:     new(edge.BatchBuffer),
-		inhibitors: inhibitors,
+		history:     make([]alert.Level, n.a.History),
+		n:           n,
+		levels:      copyResetExpressions(n.levels),
+		levelResets: copyResetExpressions(n.levelResets),
+		buffer:      new(edge.BatchBuffer),
+		inhibitors:  inhibitors,
 	}
+}
+
+// copyResetExpressions returns per-group copies of the expressions with fresh execution state,
+// so that stateful functions (count, sigma, spread, ...) are not shared between groups.
+func copyResetExpressions(exprs []stateful.Expression) []stateful.Expression {
+	c := make([]stateful.Expression, len(exprs))
+	for i, e := range exprs {
+		if e != nil {
+			c[i] = e.CopyReset()
+		}
+	}
+	return c
 }
 
 func (n *AlertNode) restoreEvent(id string) (alert.Level, time.Time) {
@@ -911,29 +925,31 @@ func (n *AlertNode) handleEvent(event alert.Event) {
 	}
 }
 
-func (n *AlertNode) determineLevel(p edge.FieldsTagsTimeGetter, currentLevel alert.Level) alert.Level {
-	if higherLevel, found := n.findFirstMatchLevel(alert.Critical, currentLevel-1, p); found {
+func (a *alertState) determineLevel(p edge.FieldsTagsTimeGetter, currentLevel alert.Level) alert.Level {
+	n := a.n
+	if higherLevel, found := a.findFirstMatchLevel(alert.Critical, currentLevel-1, p); found {
 		return higherLevel
 	}
-	if rse := n.levelResets[currentLevel]; rse != nil {
+	if rse := a.levelResets[currentLevel]; rse != nil {
 		if pass, err := EvalPredicate(rse, n.lrScopePools[currentLevel], p); err != nil {
 			n.diag.Error("error evaluating reset expression for current level", err, keyvalue.KV("level", currentLevel.String()))
 		} else if !pass {
 			return currentLevel
 		}
 	}
-	if newLevel, found := n.findFirstMatchLevel(currentLevel, alert.OK, p); found {
+	if newLevel, found := a.findFirstMatchLevel(currentLevel, alert.OK, p); found {
 		return newLevel
 	}
 	return alert.OK
 }
 
-func (n *AlertNode) findFirstMatchLevel(start alert.Level, stop alert.Level, p edge.FieldsTagsTimeGetter) (alert.Level, bool) {
+func (a *alertState) findFirstMatchLevel(start alert.Level, stop alert.Level, p edge.FieldsTagsTimeGetter) (alert.Level, bool) {
+	n := a.n
 	if stop < alert.OK {
 		stop = alert.OK
 	}
 	for l := start; l > stop; l-- {
-		se := n.levels[l]
+		se := a.levels[l]
 		if se == nil {
 			continue
 		}
@@ -988,6 +1004,10 @@ func (n *AlertNode) event(
 type alertState struct {
 	n *AlertNode
 
+	// Copies of the node's level and reset expressions owned by this group.
+	levels      []stateful.Expression
+	levelResets []stateful.Expression
+
 	buffer *edge.BatchBuffer
 
 	history []alert.Level
@@ -1035,7 +1055,7 @@ func (a *alertState) BufferedBatch(b edge.BufferedBatchMessage) (edge.Message, e
 
 	currentLevel := a.currentLevel()
 	for _, bp := range b.Points() {
-		l := a.n.determineLevel(bp, currentLevel)
+		l := a.determineLevel(bp, currentLevel)
 		if l < lowestLevel {
 			lowestLevel = l
 		}
@@ -1116,7 +1136,7 @@ func (a *alertState) Point(p edge.PointMessage) (edge.Message, error) {
 	if err != nil {
 		return nil, err
 	}
-	l := a.n.determineLevel(p, a.currentLevel())
+	l := a.determineLevel(p, a.currentLevel())
 
 	a.addEvent(p.Time(), l)
 
